@@ -210,6 +210,7 @@ def entries():
     add("SubroutineCall.abi_output_arg", lambda: pt.SubroutineCall(_abi_sub1().subroutine, [_abi_u64()]))
     add("ABIReturnSubroutine.call", lambda: pt.Seq((r := pt.abi.Uint64()).set(_abi_sub()()), r.get()))
     add("ABIReturnSubroutine.void", lambda: _abi_void()())
+    add("Subroutine.byref", lambda: pt.Seq((v := pt.ScratchVar(pt.TealType.uint64)).store(I(1)), _sub_byref()(v), v.load()))
     # --- inner transactions
     add("Itxn.pay", lambda: pt.Seq(pt.InnerTxnBuilder.Begin(), pt.InnerTxnBuilder.SetFields({
         pt.TxnField.type_enum: pt.TxnType.Payment, pt.TxnField.amount: I(1), pt.TxnField.receiver: pt.Txn.sender()}),
@@ -236,6 +237,13 @@ def _sub_none():
     def drop(x):
         return pt.Pop(x)
     return drop
+
+
+def _sub_byref():
+    @pt.Subroutine(pt.TealType.none)
+    def bump(x: pt.ScratchVar):
+        return x.store(x.load() + I(1))
+    return bump
 
 
 def _abi_sub():
